@@ -34,6 +34,8 @@ FIXED = [
  (["C09"], "ae03c6f", "min()/max() compared a float with an integer extreme (or an integer with a float extreme) by its truncated value: max over 2, 2.5 returned 2", "select max(value) where true  (values '2', '2.5')"),
  (["C02"], "b0f088a", "a key BETWEEN with reversed bounds was merged as a range with the other operands: 'key = 'm' or key between 'z' and 'a'' was planned as RANGE[m,a] and lost the pair m, on which the clause is true without the BETWEEN ever being evaluated", "select key where key = 'm' or key between 'z' and 'a'  (store {m})"),
  (["C05"], "29ac3fe", "the chunk cache key of a named select field was name + '-' + first key of the chunk: the field `v-` over a chunk starting at key 00 and the field v over a chunk starting at key -00 shared one entry, so a well-typed statement failed (or showed the other field's values) in batch mode with the cache on", "select key, strlen(key) as `v-`, lower(value) as v where (`v-` >= 0) & (v = 'b')  (keys -00 -01 -02 -03 00 01, batch size 2)"),
+ (["C06"], "5f94ff5", "quantile() accepted a NaN percentile (the words nan, inf and infinity are FLOAT literals because strconv.ParseFloat accepts them; NaN is neither > 1 nor < 0) and the statement panicked with an index out of range when the aggregate was completed", "select quantile(value, nan) where true"),
+ (["C06"], "9917b0d", "the function-call check added by 5a16734 followed every by-name reference into the referenced field, so a chain of fields each naming the previous one twice cost 2^n visits at plan time: 26 levels took seconds, 40 levels (650 bytes of text) did not finish", "select strlen(key) as a0, a0+a0 as a1, a1+a1 as a2, ... , a39+a39 as a40 where key ^= 'k'"),
 ]
 KNOWN = []
 def main():
